@@ -52,12 +52,18 @@ Neg(v)         == IF IsZero(v.m) THEN v ELSE [v EXCEPT !.neg = 1 - v.neg]
 SgnOf(v)  == IF IsZero(v.m) THEN 0 ELSE IF v.neg = 1 THEN -1 ELSE 1
 TopBit(v) == BitLen(v.m) + v.e          \* d = 0, m # 0:  2^(TopBit-1) <= |v| < 2^TopBit
 
+(* 2^Log2Lo(v) <= |v| < 2^Log2Hi(v) for v # 0  (3.321 < log2(10) < 3.322) *)
+Log2Lo(v) == BitLen(v.m) - 1 + v.e
+             + (IF v.d >= 0 THEN (v.d * 3321) \div 1000 ELSE 0 - (((0 - v.d) * 3322 + 999) \div 1000))
+Log2Hi(v) == BitLen(v.m) + v.e
+             + (IF v.d >= 0 THEN (v.d * 3322 + 999) \div 1000 ELSE 0 - (((0 - v.d) * 3321) \div 1000))
+
 (* magnitude comparison of finite numbers: -1, 0, 1 *)
 MagCmp(a, b) ==
   IF IsZero(a.m) \/ IsZero(b.m)
   THEN (IF IsZero(a.m) /\ IsZero(b.m) THEN 0 ELSE IF IsZero(a.m) THEN -1 ELSE 1)
-  ELSE IF a.d = 0 /\ b.d = 0 /\ TopBit(a) # TopBit(b)
-  THEN (IF TopBit(a) < TopBit(b) THEN -1 ELSE 1)
+  ELSE IF Log2Hi(a) <= Log2Lo(b) THEN -1        \* decided by the binary magnitudes alone
+  ELSE IF Log2Hi(b) <= Log2Lo(a) THEN 1
   ELSE LET e2  == Min(a.e, b.e)
            d10 == Min(a.d, b.d)
            A   == MulPow10(Shl(a.m, a.e - e2), a.d - d10)
@@ -104,15 +110,34 @@ MagDown(T, w) == LET q    == Quantum(T, w)
                      pow2 == TrailZeros(w.m) = BitLen(w.m) - 1
                  IN StepMag(w, IF pow2 /\ q > QMin(T) THEN q - 1 ELSE q, FALSE)
 
-(* w (in the format) is v or one of the two format values around v *)
+(* w (in the format) is v or one of the two format values around v.        *)
+(* C(x) compares |x| with |v| for a dyadic x (-1, 0, 1); vs = sign of v.    *)
+NeighbourBy(T, vs, w, C(_)) ==
+  IF vs = 0 THEN IsZero(w.m)                               \* zero is representable
+  ELSE IF IsZero(w.m) THEN C(MagUp(T, w)) > 0              \* |v| below the smallest subnormal
+  ELSE IF vs # SgnOf(w) THEN FALSE                         \* zero lies between
+  ELSE LET c == C(w) IN
+       IF c = 0 THEN TRUE
+       ELSE IF c < 0 THEN (LET u == MagUp(T, w) IN TooBig(T, u) \/ C(u) > 0)
+       ELSE C(MagDown(T, w)) < 0
+
+(* decided by the binary magnitudes alone (1 / -1), or 0 = look closer *)
+FarCmp(x, v) == IF Log2Hi(x) <= Log2Lo(v) THEN -1 ELSE IF Log2Hi(v) <= Log2Lo(x) THEN 1 ELSE 0
+
+(* a decimal numeral m * 2^e * 10^d is made dyadic once (d > 0), or the    *)
+(* format values are scaled by 5^-d once (d < 0); the power is shared by    *)
+(* the comparisons                                                          *)
 Neighbour(T, v, w) ==
-  IF NumCmp(w, v) = 0 THEN TRUE
-  ELSE IF IsZero(v.m) THEN FALSE                          \* zero is representable
-  ELSE IF IsZero(w.m) THEN MagCmp(v, MagUp(T, w)) < 0      \* |v| below the smallest subnormal
-  ELSE IF SgnOf(v) # SgnOf(w) THEN FALSE                   \* zero lies between
-  ELSE IF MagCmp(w, v) < 0
-       THEN LET u == MagUp(T, w) IN TooBig(T, u) \/ MagCmp(v, u) < 0
-       ELSE MagCmp(MagDown(T, w), v) < 0
+  IF v.d = 0 THEN NeighbourBy(T, SgnOf(v), w, LAMBDA x : MagCmp(x, v))
+  ELSE IF v.d > 0
+  THEN LET vv == Fin(v.neg, MulPow5(v.m, v.d), v.e + v.d) IN
+       NeighbourBy(T, SgnOf(v), w,
+                   LAMBDA x : IF IsZero(x.m) THEN -1 ELSE IF FarCmp(x, v) # 0 THEN FarCmp(x, v) ELSE MagCmp(x, vv))
+  ELSE LET p5 == MulPow5(One, 0 - v.d)
+           vs == Fin(0, v.m, v.e)
+       IN NeighbourBy(T, SgnOf(v), w,
+                      LAMBDA x : IF IsZero(x.m) THEN -1 ELSE IF FarCmp(x, v) # 0 THEN FarCmp(x, v)
+                                 ELSE MagCmp(Fin(0, Mul(p5, x.m), x.e - v.d), vs))
 
 (***************************************************************************)
 (* Tier 1: the target value w denotes the same number as the source v.    *)
@@ -303,7 +328,7 @@ FloatDenote(s) ==
               fp    == IF di = 0 THEN << >> ELSE From(mant, di + 1)
               digs  == ip \o fp
               okm   == Len(digs) >= 1 /\ AllDigits(digs, radix)
-              oke   == ei = 0 \/ (Len(ebody) \in 1..6 /\ AllDigits(ebody, 10))
+              oke   == ei = 0 \/ (Len(ebody) \in 1..5 /\ AllDigits(ebody, 10))
               ex    == IF ei = 0 THEN 0
                        ELSE IF SignNeg(expo) = 1 THEN 0 - DecNat(ebody, Len(ebody)) ELSE DecNat(ebody, Len(ebody))
               m     == FromDigits(DigitVals(digs), radix)
